@@ -324,8 +324,16 @@ func (e *Env) RunScan(o ScanOpts) *ScanRecord {
 					rec.Panic = fmt.Sprintf("log.Fatal exit(%d)", v.Code)
 					rec.Stack = trimStack(string(debug.Stack()))
 				default:
-					rec.Panic = r
-					rec.Stack = trimStack(string(debug.Stack()))
+					stack := trimStack(string(debug.Stack()))
+					if m := UnmodelledAWSCall(stack); m != "" {
+						// escalator called an AWS operation the simulated services do not implement (the embedded
+						// SDK interface is nil): the harness cannot go on with this scan, and it is not escalator's panic
+						ev := e.J.Add(&Event{API: AwsOther, Verb: m, Note: "aws operation " + m + " is not modelled by the simulated cloud"})
+						ev.Err = "unsupported"
+					} else {
+						rec.Panic = r
+						rec.Stack = stack
+					}
 				}
 			}
 		}()
@@ -362,6 +370,35 @@ func (e *Env) RunScan(o ScanOpts) *ScanRecord {
 	}
 	rec.Logs = append([]string(nil), e.Logs.Lines...)
 	return rec
+}
+
+// UnmodelledAWSCall: the panic is a nil dereference inside the promoted (auto-generated) method of the SDK interface
+// embedded in ASGService / EC2Service, i.e. an operation the simulation does not implement. Returns its name.
+func UnmodelledAWSCall(stack string) string {
+	lines := strings.Split(stack, "\n")
+	for i, l := range lines {
+		if strings.HasPrefix(l, "panic(") {
+			lines = lines[i:]
+			break
+		}
+	}
+	for i, l := range lines {
+		if strings.HasPrefix(l, "panic(") || strings.HasPrefix(l, "runtime.") || strings.HasPrefix(l, "\t") || l == "" || strings.HasPrefix(l, "goroutine ") {
+			continue
+		}
+		// first frame that is neither the runtime nor a file line
+		for _, recv := range []string{"verifharness/sim.(*ASGService).", "verifharness/sim.(*EC2Service).", "main.(*lockedASG).", "main.(*lockedEC2).", "main.lockedASG.", "main.lockedEC2."} {
+			if strings.HasPrefix(l, recv) && i+1 < len(lines) && strings.Contains(lines[i+1], "<autogenerated>") {
+				name := strings.TrimPrefix(l, recv)
+				if k := strings.Index(name, "("); k > 0 {
+					name = name[:k]
+				}
+				return name
+			}
+		}
+		return ""
+	}
+	return ""
 }
 
 func trimStack(s string) string {
